@@ -101,7 +101,8 @@ TUnlock == Has("unlock") /\ (UFS_Unlock(E.a) \/ Load_Unlock(E.a) \/ Save_Unlock(
 \* gone; the file keeps whatever it contained (possibly nothing, if the process had truncated and not yet written).
 TCrash == /\ Has("crash")
           /\ lock' = IF lock = E.a THEN None ELSE lock
-          /\ oldlock' = IF oldlock = E.a THEN None ELSE oldlock /\ oldq' = oldq \ {E.a}
+          /\ oldlock' = (IF oldlock = E.a THEN None ELSE oldlock)
+          /\ oldq' = oldq \ {E.a}
           /\ olock' = [olock EXCEPT ![ObjOf[E.a]] = None]
           /\ pc' = [pc EXCEPT ![E.a] = "idle"]
           /\ UNCHANGED <<file, fver, mem, rver, kind, left, done, doneBy, torn, lost, sawRec>>
